@@ -43,6 +43,27 @@ for _pid, _c in json.load(open(os.path.join(HERE, "tools", "manifest_texts.json"
     CHECKS[_pid] = dict(text=_c["text"], ref=_c["ref"], note=TRUST + _c["note"], technique=_c["technique"])
 
 
+# compositions (DESIGN 9.4): the check's final phase validates mixed histories in the scope of its own property
+_MOTLSYS = (" Finally, mixed histories on ONE live particle list (pose operations, set operations and queries, spatial "
+            "filters, symmetry expansion, EM / STOPGAP / RELION round trips; full abstract state logged after every public "
+            "call) are validated step by step by MotlSysTrace.tla with Scope = \"%s\": only this property's steps are "
+            "judged, all other steps re-synchronise.")
+_MAPSYS = (" Finally, mixed histories on a pool of live maps and files (write / read / conversions, windowing, flips, "
+           "right-angle rotations, mask algebra, thresholding, caller-side edits of results; full abstract state logged "
+           "after every public call) are validated step by step by MapSysTrace.tla with Scope = \"%s\": only this "
+           "property's steps are judged, all other steps re-synchronise.")
+for _pid, _scope in (("C05", "pose"), ("C08", "set"), ("C04", "sg"), ("C03", "relion"), ("C09", "spatial"), ("C10", "sym")):
+    CHECKS[_pid]["text"] += _MOTLSYS % _scope
+    CHECKS[_pid]["technique"] += " + TLC trace validation of mixed histories (MotlSysTrace composition)"
+for _pid, _scope in (("C11", "io"), ("C14", "geom"), ("C13", "mask")):
+    CHECKS[_pid]["text"] += _MAPSYS % _scope
+    CHECKS[_pid]["technique"] += " + TLC trace validation of mixed histories (MapSysTrace composition)"
+for _pid in CHECKS:
+    CHECKS[_pid]["note"] += (" Caller-side frame conditions (arguments untouched, results persist, call-history independence) "
+                             "are enforced by mbt/argguard.py snapshots inside the drivers; input storage forms, table forms, "
+                             "option spellings and identifier values follow the audit tables in /verif/audit.")
+
+
 def main():
     props = [json.loads(l) for l in open(os.path.join(HERE, "properties.jsonl"))]
     checks = []
